@@ -1401,6 +1401,10 @@ def upper_case_unquoted_identifiers(expression: exp.Expression) -> exp.Expressio
     """
 
     if isinstance(expression, exp.Identifier) and not expression.quoted and isinstance(expression.this, str):
+        if isinstance(expression.parent, exp.PropertyEQ) and expression.arg_key == "this":
+            # the key of an object constant {'key': value} is a string, not an identifier
+            return expression
+
         new = expression.copy()
         new.set("this", expression.this.upper())
         return new
